@@ -896,7 +896,7 @@ def errors(source, model, wcshelper):
     theta = model[prefix + 'theta'].value
     err_theta = model[prefix + 'theta'].stderr
 
-    source.err_peak_flux = err_amp
+    source.err_peak_flux = err_amp if np.isfinite(err_amp) else ERR_MASK
     pix_errs = [err_xo, err_yo, err_sx, err_sy, err_theta]
 
     log.debug("Pix errs: {0}".format(pix_errs))
@@ -1288,7 +1288,8 @@ def covar_errors(params, data, errs, B, C=None):
             covar = np.transpose(J).dot(J)
             onesigma = np.sqrt(np.diag(inv(covar)))
         except (np.linalg.LinAlgError, ValueError) as _:
-            onesigma = [-2] * len(mask[0])
+            # no error estimate is possible: mark it as such (not a number)
+            onesigma = [np.nan] * len(mask[0])
 
     j = 0
     for i in range(int(params['components'].value)):
